@@ -163,7 +163,7 @@ func checkC12(c *Ctx) {
 			}
 		}
 	}
-	want1 := fmt.Sprintf("select[%s if {NOT (%s <= 0)} | 3 if {(%s <= 0)}]", MCF, MCF, MCF)
+	want1 := fmt.Sprintf("select[%s if {(0 < %s)} | 3 if {(%s <= 0)}]", MCF, MCF, MCF)
 	want2 := fmt.Sprintf("select[%s if {NOT (0 == %s)} | 3 if {(0 == %s)}]", MCF, MCF, MCF)
 	want1 = sortSelect(want1)
 	want2 = sortSelect(want2)
